@@ -620,6 +620,8 @@ class Evaluator:
             o = args[0]
             if short in ("as_deref", "as_ref"):
                 return o
+            if o[0] not in ("some", "none"):
+                raise Unrecognised(f"Option::{short} on a value that is not known to be Some or None ({str(o)[:40]})")
             if short == "unwrap_or_default":
                 return o[1] if o[0] == "some" else ("str", "")
             if short == "unwrap_or":
@@ -666,6 +668,13 @@ class Evaluator:
                     return self.apply(args[1], [r[1]]) if r[0] == "ok" else r
                 if short in ("or_else",):
                     return self.apply(args[1], [r[1]]) if r[0] == "err" else r
+        if short in ("into_iter", "iter") and len(args) == 1 and args[0][0] == "array":
+            return args[0]                  # an array iterated in order is the sequence of its elements
+        if short == "fold" and len(args) == 3 and args[0][0] == "array":
+            acc = args[1]
+            for el in args[0][1:]:
+                acc = self.apply(args[2], [acc, el])
+            return acc
         if short in ("get",) and args and args[0][0] == "array" and len(args) == 2 and args[1][0] == "int":
             return ("some", args[0][1 + args[1][1]]) if 0 <= args[1][1] < len(args[0]) - 1 else ("none",)
         if short in ("copied", "cloned") and args and args[0][0] in ("some", "none"):
